@@ -54,7 +54,7 @@ func mustAddSummary(p *core.Prog, fns []*ssa.Function) map[*ssa.Function]bool {
 				}
 				// error-returning exits do not count
 				if n := len(ret.Results); n > 0 {
-					if provablyNonNilErr(ret.Results[n-1], ret.Block()) {
+					if provablyNonNilErr(core.RetOperand(ret, n-1), ret.Block()) {
 						return false
 					}
 				}
@@ -196,7 +196,7 @@ func neverFails(f *ssa.Function) bool {
 		return false
 	}
 	for _, r := range rets {
-		if len(r.Results) == 0 || !core.IsNilConst(r.Results[len(r.Results)-1]) {
+		if len(r.Results) == 0 || !core.IsNilConst(core.RetOperand(r, len(r.Results)-1)) {
 			return false
 		}
 	}
